@@ -6,6 +6,7 @@ import (
 	"flag"
 	"fmt"
 	"go/ast"
+	"go/token"
 	"go/types"
 	"os"
 	"path/filepath"
@@ -775,15 +776,76 @@ func cmdNames(args []string) int {
 func varsOf(fi *FuncInfo) []string {
 	var out []string
 	info := fi.Pkg.TypesInfo
+	bodyStart := fi.Decl.End()
+	if fi.Decl.Body != nil {
+		bodyStart = fi.Decl.Body.Pos()
+	}
+	sep := false
 	ast.Inspect(fi.Decl, func(n ast.Node) bool {
 		if id, ok := n.(*ast.Ident); ok {
 			if v, ok := info.Defs[id].(*types.Var); ok && !v.IsField() && id.Name != "_" {
-				out = append(out, id.Name)
+				if !sep && id.Pos() >= bodyStart {
+					out = append(out, "|") // receiver, parameters, named results | locals
+					sep = true
+				}
+				out = append(out, id.Name+":"+strings.ReplaceAll(types.TypeString(v.Type(), func(*types.Package) string { return "" }), " ", ""))
 			}
 		}
 		return true
 	})
+	if !sep {
+		out = append(out, "|")
+	}
 	return out
+}
+
+func varName(e string) string {
+	if i := strings.Index(e, ":"); i >= 0 {
+		return e[:i]
+	}
+	return e
+}
+
+func varType(e string) string {
+	if i := strings.Index(e, ":"); i >= 0 {
+		return e[i+1:]
+	}
+	return ""
+}
+
+func splitVars(vs []string) (sig, locals []string) {
+	for i, v := range vs {
+		if v == "|" {
+			return vs[:i], vs[i+1:]
+		}
+	}
+	return nil, vs
+}
+
+// the signature's variables are positional for callers, so a contract reads a recorded signature name as whatever the
+// variable at that position is called now - also when the old name still exists elsewhere (two parameters swapped)
+func (p *Program) sigRenames(fi *FuncInfo) map[string]string {
+	if fi == nil {
+		return nil
+	}
+	if m, ok := p.sigRenameCache[fi]; ok {
+		return m
+	}
+	rs, _ := splitVars(p.Contracts.Vars[fi.Key])
+	cs, _ := splitVars(varsOf(fi))
+	m := map[string]string{}
+	if len(rs) > 0 && len(rs) == len(cs) {
+		for i := range rs {
+			if varName(rs[i]) != varName(cs[i]) {
+				m[varName(rs[i])] = varName(cs[i])
+			}
+		}
+	}
+	if p.sigRenameCache == nil {
+		p.sigRenameCache = map[*FuncInfo]map[string]string{}
+	}
+	p.sigRenameCache[fi] = m
+	return m
 }
 
 // renames[old] = new for the function: positional comparison of the recorded variable list with the present one (only when
@@ -795,26 +857,39 @@ func (p *Program) renames(fi *FuncInfo) map[string]string {
 	if m, ok := p.renameCache[fi]; ok {
 		return m
 	}
+	// a recorded local that is gone is read as the new local (one that was not recorded) of the same type; with several of
+	// one type, in source order (k-th gone with k-th new).  Independent of how many other variables came or went.
 	m := map[string]string{}
-	rec := p.Contracts.Vars[fi.Key]
-	cur := varsOf(fi)
-	if len(rec) > 0 && len(rec) == len(cur) {
-		bad := map[string]bool{}
-		curNames := map[string]bool{}
-		for _, c := range cur {
-			curNames[c] = true
+	_, rec := splitVars(p.Contracts.Vars[fi.Key])
+	_, cur := splitVars(varsOf(fi))
+	recNames, curNames := map[string]bool{}, map[string]bool{}
+	for _, r := range rec {
+		recNames[varName(r)] = true
+	}
+	for _, c := range cur {
+		curNames[varName(c)] = true
+	}
+	gone := map[string][]string{} // type -> names, in order, no duplicates
+	fresh := map[string][]string{}
+	seen := map[string]bool{}
+	for _, r := range rec {
+		if n := varName(r); !curNames[n] && !seen["g"+n] {
+			seen["g"+n] = true
+			gone[varType(r)] = append(gone[varType(r)], n)
 		}
-		for i := range rec {
-			if rec[i] == cur[i] || curNames[rec[i]] {
-				continue // still declared under that name somewhere in the function: no aliasing for it
-			}
-			if prev, ok := m[rec[i]]; ok && prev != cur[i] {
-				bad[rec[i]] = true
-			}
-			m[rec[i]] = cur[i]
+	}
+	for _, c := range cur {
+		if n := varName(c); !recNames[n] && !seen["f"+n] {
+			seen["f"+n] = true
+			fresh[varType(c)] = append(fresh[varType(c)], n)
 		}
-		for b := range bad {
-			delete(m, b)
+	}
+	for t, gs := range gone {
+		fs := fresh[t]
+		for k, g := range gs {
+			if k < len(fs) {
+				m[g] = fs[k]
+			}
 		}
 	}
 	if p.renameCache == nil {
@@ -837,4 +912,60 @@ func knownLimit(id string) string {
 		}
 	}
 	return ""
+}
+
+
+// counterRenames[name] = ordinal of a range loop without a key variable: a recorded int local that is gone and has no new int
+// local to be read as (see renames) is read as the iteration counter of the k-th such loop, in source order - an index loop
+// "for i := 0; i < len(x); i++" that became "for _, v := range x" keeps invariants that speak of i
+func (p *Program) counterRenames(fi *FuncInfo) map[string]int {
+	if fi == nil {
+		return nil
+	}
+	if m, ok := p.counterCache[fi]; ok {
+		return m
+	}
+	m := map[string]int{}
+	_, rec := splitVars(p.Contracts.Vars[fi.Key])
+	_, cur := splitVars(varsOf(fi))
+	curNames := map[string]bool{}
+	for _, c := range cur {
+		curNames[varName(c)] = true
+	}
+	taken := p.renames(fi)
+	var gone []string
+	seen := map[string]bool{}
+	for _, r := range rec {
+		n := varName(r)
+		if varType(r) == "int" && !curNames[n] && taken[n] == "" && !seen[n] {
+			seen[n] = true
+			gone = append(gone, n)
+		}
+	}
+	if len(gone) > 0 {
+		loops, _ := numberLoops(fi.Decl)
+		type lo struct {
+			pos token.Pos
+			ord int
+		}
+		var anon []lo
+		for st, ord := range loops {
+			if rs, ok := st.(*ast.RangeStmt); ok {
+				if id, isId := rs.Key.(*ast.Ident); rs.Key == nil || (isId && id.Name == "_") {
+					anon = append(anon, lo{rs.Pos(), ord})
+				}
+			}
+		}
+		sort.Slice(anon, func(a, b int) bool { return anon[a].pos < anon[b].pos })
+		for k, g := range gone {
+			if k < len(anon) {
+				m[g] = anon[k].ord
+			}
+		}
+	}
+	if p.counterCache == nil {
+		p.counterCache = map[*FuncInfo]map[string]int{}
+	}
+	p.counterCache[fi] = m
+	return m
 }
